@@ -79,32 +79,40 @@ func (g *gen) fieldArith(pk string, m *big.Int) {
 		g.add("%s.mulby5@generic %s", pk, x)
 		g.add("%s.mulby13@generic %s", pk, y)
 		g.add("%s.butterfly %s %s", pk, x, y)
-		// raw Montgomery limbs of the same operands, every back-end route
+		// raw Montgomery limbs of the same operands, every back-end route.  API routes carry the active
+		// back-end (assembly with/without ADX dispatch, ADX-only build, portable) so that the Lean side
+		// evaluates the translation of exactly that code.
 		xm, ym := mod(mul(x, R), m), mod(mul(y, R), m)
 		xl, yl := limbsOf(xm, limbs), limbsOf(ym, limbs)
-		for _, route := range []string{"", "zx", "zy", "generic", "generic-zx", "generic-zy"} {
+		be := ":" + backendRoute(pk)
+		bin := []string{"api" + be, "zx" + be, "zy" + be, "generic", "generic-zx", "generic-zy"}
+		un := []string{"api" + be, "zx" + be, "generic", "generic-zx"}
+		two := []string{"api" + be, "generic"}
+		for _, route := range bin {
 			g.add("%sraw.mul@%s %s %s", pk, route, xl, yl)
 		}
-		g.add("%sraw.add@%s %s %s", pk, []string{"", "zx", "zy", "generic", "generic-zx", "generic-zy"}[r.intn(6)], xl, yl)
-		g.add("%sraw.sub@%s %s %s", pk, []string{"", "zx", "zy", "generic", "generic-zx", "generic-zy"}[r.intn(6)], xl, yl)
+		g.add("%sraw.add@%s %s %s", pk, bin[r.intn(6)], xl, yl)
+		g.add("%sraw.sub@%s %s %s", pk, bin[r.intn(6)], xl, yl)
 		g.add("%sraw.add@generic %s %s", pk, xl, yl)
 		g.add("%sraw.sub@generic %s %s", pk, xl, yl)
-		g.add("%sraw.square@%s %s", pk, []string{"", "zx", "generic", "generic-zx"}[r.intn(4)], xl)
-		g.add("%sraw.double@%s %s", pk, []string{"", "zx", "generic", "generic-zx"}[r.intn(4)], xl)
-		g.add("%sraw.neg@%s %s", pk, []string{"", "zx", "generic", "generic-zx"}[r.intn(4)], yl)
-		g.add("%sraw.frommont@%s %s", pk, []string{"", "generic"}[r.intn(2)], xl)
+		g.add("%sraw.add@api%s %s %s", pk, be, xl, yl)
+		g.add("%sraw.sub@api%s %s %s", pk, be, xl, yl)
+		g.add("%sraw.square@%s %s", pk, un[r.intn(4)], xl)
+		g.add("%sraw.double@%s %s", pk, un[r.intn(4)], xl)
+		g.add("%sraw.neg@%s %s", pk, un[r.intn(4)], yl)
+		g.add("%sraw.frommont@%s %s", pk, two[r.intn(2)], xl)
 		g.add("%sraw.halve %s", pk, xl)
-		g.add("%sraw.butterfly@%s %s %s", pk, []string{"", "generic"}[r.intn(2)], xl, yl)
-		g.add("%sraw.mulby3@%s %s", pk, []string{"", "generic"}[r.intn(2)], xl)
-		g.add("%sraw.mulby5@%s %s", pk, []string{"", "generic"}[r.intn(2)], yl)
-		g.add("%sraw.mulby13@%s %s", pk, []string{"", "generic"}[r.intn(2)], xl)
+		g.add("%sraw.butterfly@%s %s %s", pk, two[r.intn(2)], xl, yl)
+		g.add("%sraw.mulby3@%s %s", pk, two[r.intn(2)], xl)
+		g.add("%sraw.mulby5@%s %s", pk, two[r.intn(2)], yl)
+		g.add("%sraw.mulby13@%s %s", pk, two[r.intn(2)], xl)
 		// reduce on values in [0, 2m) that fit the limbs
 		z := add(xm, []*big.Int{small(0), m, sub(m, xm)}[r.intn(3)])
 		if z.Cmp(R) < 0 {
-			g.add("%sraw.reduce@%s %s", pk, []string{"", "generic"}[r.intn(2)], limbsOf(z, limbs))
+			g.add("%sraw.reduce@%s %s", pk, two[r.intn(2)], limbsOf(z, limbs))
 		}
 		if i%8 == 0 {
-			g.add("%sraw.inverse@%s %s", pk, []string{"", "zx"}[r.intn(2)], xl)
+			g.add("%sraw.inverse@%s %s", pk, []string{"api", "zx"}[r.intn(2)], xl)
 		}
 	}
 	// exponentiation
@@ -1192,4 +1200,18 @@ func hashStr(s string) uint64 {
 		h *= 1099511628211
 	}
 	return h
+}
+
+// active back-end of the element package behind the public API
+func backendRoute(pk string) string {
+	if pk != "ff" {
+		return "portable"
+	}
+	if backendKind == "adxonly" {
+		return "adxonly"
+	}
+	if ffSupportAdx() {
+		return "adx1"
+	}
+	return "adx0"
 }
